@@ -1,0 +1,36 @@
+// Copyright 2017 Pilosa Corp.
+//
+// Licensed under the Apache License, Version 2.0 (the "License");
+// you may not use this file except in compliance with the License.
+// You may obtain a copy of the License at
+//
+//     http://www.apache.org/licenses/LICENSE-2.0
+//
+// Unless required by applicable law or agreed to in writing, software
+// distributed under the License is distributed on an "AS IS" BASIS,
+// WITHOUT WARRANTIES OR CONDITIONS OF ANY KIND, either express or implied.
+// See the License for the specific language governing permissions and
+// limitations under the License.
+
+//go:build verif
+// +build verif
+
+package pilosa
+
+import "fmt"
+
+// Export shims for the verification harness (/verif, property C22), part 2. Add-only, tag-guarded.
+
+type verifC22Logger struct{ f func(string) }
+
+func (l verifC22Logger) Printf(format string, v ...interface{}) { l.f(fmt.Sprintf(format, v...)) }
+func (l verifC22Logger) Debugf(format string, v ...interface{}) {}
+
+// SetLogger installs f as the coordinator's logger. The harness uses the log lines of
+// handleNodeAction ("wait for jobResult", "received jobResult: …") as gates: f may block, which
+// holds the listener goroutine at that line (no mutex is held there).
+func (v *VerifC22Cluster) SetLogger(f func(string)) {
+	v.c.mu.Lock()
+	v.c.logger = verifC22Logger{f: f}
+	v.c.mu.Unlock()
+}
